@@ -1,6 +1,6 @@
 CHECK = dict(
     level="fault_enumeration",
-    level_text="Fault-sequence enumeration and generated-history search against the real billstat.RuntimeRecorder with a scripted uploader: every success/failure pattern of up to six consecutive upload attempts is enumerated with a fixed set of record placements (before the upload and re-entrantly while it is in flight); rapid draws longer patterns, more devices, random metadata and rare overlapping refreshes. After every real call the per-device equation delivered + pending (+ in flight) = recorded and the last-writer metadata of every pending/uploaded record are compared with an explicit model. A -race variant samples real goroutine schedules and checks the same at quiescence. A second unit drives the real backendpb.BillStat uploader over a scripted gRPC client stream (open/send/close faults). Held on N histories is evidence, not proof; exhaustive only for the stated placement sets.",
+    level_text="Fault-sequence enumeration and generated-history search against the real billstat.RuntimeRecorder with a scripted uploader: every success/failure pattern of up to six consecutive upload attempts is enumerated with a fixed set of record placements (before the upload and re-entrantly while it is in flight); rapid draws longer patterns, more devices, random and near-miss metadata (one field changed, unknown location, device IDs differing in case only), Record and Refresh calls with cancelled / expired / cancelled-in-flight contexts, and rare overlapping refreshes. After every real call the per-device equation delivered + pending (+ in flight) = recorded and the last-writer metadata of every pending/uploaded record are compared with an explicit model. A -race variant samples real goroutine schedules and checks the same at quiescence. A second unit drives the real backendpb.BillStat uploader over a scripted gRPC client stream (open/send/close faults incl. Send reporting io.EOF with the status deferred to CloseAndRecv, done and cancelled-mid-stream contexts). Held on N histories is evidence, not proof; exhaustive only for the stated placement sets.",
     level_note="The in-flight race is modelled by records made from inside Uploader.Upload (deterministic) and sampled with real goroutines; 'delivered' means the uploader returned nil (a failed stream is assumed to be discarded by the backend as a whole). Timestamps are strictly increasing in call order so 'most recent query' is unambiguous.",
     technique="property-based testing (rapid): bounded-exhaustive S/F fault patterns + stateful histories with a re-entrant scripted uploader vs a counting/last-writer model; concurrent variant under -race",
     assumptions=[
@@ -12,7 +12,7 @@ CHECK = dict(
     units=[
         dict(name="billstat", dir="internal/billstat", src="C16/billstat", runs=[
             dict(name="patterns", run="^TestVerifC16Patterns$", quick=0, thorough=0, shards_thorough=8, timeout_thorough=1200),
-            dict(name="history", run="^TestVerifC16History$", quick=30000, thorough=1600000, shards_thorough=8),
+            dict(name="history", run="^TestVerifC16History$", quick=30000, thorough=1200000, shards_thorough=8),
             dict(name="concurrent", run="^TestVerifC16Concurrent$", quick=600, thorough=24000, shards_thorough=4, race=True),
         ]),
         dict(name="backendpb", dir="internal/backendpb", src="C16/backendpb", runs=[
